@@ -407,6 +407,9 @@ func (x *Exec) toTVQuiet(st *State, v Val) string {
 func init() {
 	specFuncs["size"] = func(e *specEnv, args []SV) SV {
 		viewDecl(e.x)
+		if _, n, ok := e.x.raViewPure(e.st, args[0].V); ok {
+			return SV{V: TV{SInt, n}}
+		}
 		return SV{V: TV{SInt, app("g_size", e.term(args[0]))}}
 	}
 	specFuncs["view"] = func(e *specEnv, args []SV) SV {
